@@ -16,7 +16,8 @@ Bases ==
       [] Camp = "build"   -> {[types |-> t, locals |-> "a", customs |-> 0] : t \in {"plain", "rec"}}
       [] Camp = "types"   -> {[types |-> t, locals |-> "none", customs |-> 0] : t \in {"plain", "rec"}}
       [] Camp = "adds"    -> {[types |-> "plain", locals |-> "none", customs |-> 1]}
-      [] Camp = "customs" -> {[types |-> "plain", locals |-> "none", customs |-> c] : c \in 0 .. 3}
+      [] Camp = "customs" -> {[types |-> "plain", locals |-> "none", customs |-> c, cpos |-> "end"] : c \in 0 .. 3}
+                              \cup {[types |-> "plain", locals |-> "none", customs |-> c, cpos |-> q] : c \in 2 .. 3, q \in {"front", "spread"}}
 
 LocalOps == {[op |-> "add_local", f |-> f, ty |-> t, via |-> v] :
                 f \in {1, 2}, t \in {"i32", "f64"}, v \in {"modifier", "modifier_many", "iter"}}
@@ -46,6 +47,10 @@ TypeOps ==
   \cup {[op |-> "add_type", kind |-> "struct", fields |-> f] : f \in {<<>>, << <<"i32", FALSE>> >>, << <<"i32", TRUE>>, <<"f64", FALSE>> >>}}
   \cup {[op |-> "add_type", kind |-> "func", params |-> <<>>, results |-> <<>>, full |-> TRUE, final |-> FALSE, shared |-> FALSE],
         [op |-> "add_type", kind |-> "array", elem |-> "i64", mut |-> TRUE, full |-> TRUE, final |-> TRUE, shared |-> TRUE]}
+  \* declared subtypes of the base's open (non-final) struct type: same fields with and without the supertype are
+  \* DIFFERENT types
+  \cup {[op |-> "add_type", kind |-> "struct", fields |-> << <<"i32", FALSE>> >>, full |-> TRUE, final |-> f, shared |-> FALSE,
+         super |-> (IF base.types = "plain" THEN 2 ELSE 6)] : f \in BOOLEAN}
 
 Inits == {[k |-> "i32", v |-> "-1"], [k |-> "i64", v |-> "-9223372036854775808"], [k |-> "f32", v |-> "2141192193"],
           [k |-> "f64", v |-> "18444492273895866369"], [k |-> "v128", v |-> "340282366920938463463374607431768211455"],
